@@ -6,7 +6,8 @@ One case = one call of one function of porepy/grids/partition.py on a generated 
   pstruct        partition_structured(g, num_part= / coarse_dims=)
   overlap        overlap(g, cell_ind, num_layers, criterion)
   pgrid          partition_grid(g, ind)
-  pcoord         partition_coordinates(g, n)                (oracle only: float box search)
+  pcoord         partition_coordinates(g, n)                (box search compared with the exact-rational model away from knife edges)
+  dcd            determine_coarse_dimensions(n, fine)       (1-4 axes, compared exactly with the integer model)
   connected      grid_is_connected(g, cells)                (oracle only: networkx)
 Index outputs are compared exactly with the Lean model (PorepyVerif/C22/Model.lean); the oracle checks the
 property on the real code, including the recomputed geometry of the extracted grid.
@@ -18,7 +19,7 @@ from fractions import Fraction
 
 import numpy as np
 
-from harness.common import err_kind, deep_compare
+from harness.common import err_kind, deep_compare, fracs, frac
 
 PID = "C22"
 THEOREMS = [
@@ -35,6 +36,14 @@ THEOREMS = [
     "PorepyVerif.C22.overlap_monotone",
     "PorepyVerif.C22.overlap_contains_neighbours",
     "PorepyVerif.C22.overlap_layer_exact",
+    "PorepyVerif.C22.first_occurrence_spec",
+    "PorepyVerif.C22.extract_faces_sign_rule",
+    "PorepyVerif.C22.extract_faces3_edges",
+    "PorepyVerif.C22.edge_key_injective",
+    "PorepyVerif.C22.exact_root_spec",
+    "PorepyVerif.C22.coarse_dimensions_in_range",
+    "PorepyVerif.C22.partition_structured_num_part",
+    "PorepyVerif.C22.partition_coordinates_total",
 ]
 LEAN_MODULES = ["PorepyVerif.C22.Props"]
 AUDIT = "PorepyVerif/C22/Audit.lean"
@@ -48,12 +57,19 @@ RULE = ("one call per case; grids: CartGrid 1-d/2-d/3-d, StructuredTriangleGrid,
         "size); face sets for faces=True: random (2-d), coplanar or random with is_planar=False (3-d), one or several points (1-d); "
         "partition_structured: fine dims incl. primes and 1, coarse_dims in [1, fine] (non-divisible mostly), num_part from 1 to beyond the "
         "cell count, ~8% malformed (coarse > fine, coarse = 0); overlap: depths 0-3, criteria node/face (also 'Node ', 'FACE'), duplicates in "
-        "cell_ind, empty and out-of-range sets; partition_grid: ids with gaps and single-cell parts. non-trivial = no error expected and the "
+        "cell_ind, empty and out-of-range sets; partition_grid: ids with gaps and single-cell parts; determine_coarse_dimensions: 1-4 axes, sizes up to 40/20/9/4, targets 0, 1, perfect squares/cubes/4th powers, "
+        "around and beyond the cell count; partition_coordinates: all grid types, targets 1-40. non-trivial = no error expected and the "
         "input is not the whole grid / empty; distinct = distinct (kind, grid, arguments)")
 TRUSTED = [
-    "modelled, not verified: determine_coarse_dimensions (float n-th roots, floor/ceil): its real output is passed to the model as coarse_dims; "
-    "the oracle checks 1 <= coarse <= fine (the hypothesis of the partition_structured theorems) and its documented limit cases on every call",
-    "modelled, not verified: partition_coordinates (float box search) and grid_is_connected (networkx) are checked by the oracle only; partition_metis is skipped (pymetis not installed)",
+    "determine_coarse_dimensions: the model replaces floor/ceil of the float np.power(target/prod, 1/k) by the exact integer k-th root (rootFloor/rootCeil, characterised by "
+    "exact_root_spec). The float can deviate from it only when target/prod is an exact k-th power with k >= 3 (1/3 is not a binary fraction: 64**(1/3) = 3.9999999999999996, so floor gives 3 "
+    "where the exact root gives 4); in that case only s_low differs and the search over roundings still reaches the exact root in every axis. The range theorem holds for ANY floor/ceil pair "
+    "(RootOk), so it covers the float behaviour too; equality of model and code is checked by correspondence (exhaustive sweep over all fine <= 12 (1-d), 10x10, 6x6x6, 3^4 and ~40 targets each "
+    "at build time: 13252 calls, 0 differences; random calls on every run incl. perfect powers)",
+    "partition_coordinates: the box search is modelled over exact rationals (inputs = the binary64 centres/extents as exact rationals); the float code evaluates min + dx*k with rounding, so cases in "
+    "which a centre is within 1e-9 of a box boundary are not compared (counted in input_distribution; exact hits with binary64-exact box edges are compared). The preparation of the inputs "
+    "(map_grid to natural coordinates, node extent, delta_int = ceil(n^(1/d)*delta/min delta)) is float glue done by the harness with the same calls as the code; the check_connectivity branch is not modelled",
+    "grid_is_connected (networkx) is checked by the oracle only; partition_metis is skipped (pymetis not installed)",
     "modelled, not verified: scipy csc construction from (data, indices, indptr) keeps the stored order; coo->csc conversion in _extract_cells_from_faces_3d (columns compared as sorted "
     "(face, sign) lists); np.unique / np.sort / np.cumsum / np.meshgrid+swapaxes+ravel are modelled by usort / isort / cumsumFrom / nested flatMap",
     "geometry: Grid.compute_geometry is not modelled in Lean (that is C19); the locality argument is in EXPLANATION and the equality is checked by the oracle on the real code to 1e-12",
@@ -63,14 +79,20 @@ TRUSTED = [
 EXPLANATION = (
     "FULL for the index maps, CORE for the geometry. Lean: extract_maps_point_to_parent (face_map/node_map are strictly increasing, contain exactly the faces of the "
     "selected cells / nodes of those faces, and the local incidence renumbered through the maps IS the parent's incidence on those cells and faces, signs included), "
-    "extract_cells_order, partition_grid_cells_once; axis_index_closed_form (the cumulative-sum construction equals min(i div floor(f/c), c-1)), "
-    "partition_structured_cell/in_range/total/monotone for 1-3 axes under 1 <= coarse <= fine; overlap_zero_id/monotone/contains_neighbours/layer_exact for any cell-entity relation "
+    "extract_cells_order, partition_grid_cells_once; for faces=True: extract_faces_maps_point_to_parent, extract_faces_sign_rule (first-occurrence sign rule as coded, signed row sum 2-k resp. k-2 for a "
+    "node/edge shared by k chosen faces: closed exactly for k=2, accepted grids have k<=3), extract_faces3_edges (faces of the 2-d grid = distinct undirected edges in lexicographic order, each an oriented "
+    "edge of a cell; cell-face incidence = consecutive node pairs of the parent face), edge_key_injective; axis_index_closed_form (the cumulative-sum construction equals min(i div floor(f/c), c-1)), "
+    "partition_structured_cell/in_range/total/monotone for 1-3 axes under 1 <= coarse <= fine; determine_coarse_dimensions over integers: exact_root_spec, coarse_dimensions_in_range (never the 'bug somewhere' "
+    "error, 1 <= coarse <= fine per axis, 1 <= prod coarse <= prod fine, for ANY floor/ceil root pair; no bound relative to the target holds as coded: target 5 on 3x3 gives 9 parts), "
+    "partition_structured_num_part (num_part variant = composition, in range and total); partition_coordinates_total (centres inside the node extent get exactly one box id in range, the box containing them). "
+    "Observation, not a violation: np.any(hit_ceil) tests an INDEX array, so a ceiling hit in dimension 0 alone does not restart the search (determine_coarse_dimensions(50,[2,5,5]) = [2,4,4], 32 parts although 50 fit); "
+    "the model reproduces it and coarse_dimensions_in_range shows the range property is unaffected. overlap_zero_id/monotone/contains_neighbours/layer_exact for any cell-entity relation "
     "(node or face criterion). Geometry (CORE, by oracle): compute_geometry computes face areas/centers/normals from the nodes of that face only, cell centers and volumes from "
     "sub-simplices spanned by the cell's own faces, their nodes and the cell's temporary center; since the extracted grid has the same node coordinates (g.nodes[:, node_map]), the same "
     "node order per face and the same signed cell-face entries for the selected cells (this is what the Lean theorem proves), the recomputed values are the same arithmetic on the same "
     "numbers; the only non-local ingredient is the unit plane normal of a 2-d grid (sum over all cells, normalised), equal up to rounding, and the sign flip of a face normal, fixed by the "
     "cell_faces signs which are preserved. The oracle recomputes the geometry of every extracted grid and compares volumes, centers, areas, face centers and outward normals to 1e-12. "
-    "Genuine defect found (open, known finding): partition_structured raises UnboundLocalError on 1-d tensor grids; the model follows the repaired behaviour."
+    "Genuine defect found by this check and repaired in /repo (f7a883320): partition_structured raised UnboundLocalError on 1-d tensor grids (regression case in corpus)."
 )
 ASSUMPTIONS = [
     "indices passed to the functions are non-negative (numpy's negative-index wrap-around is outside the model)",
@@ -79,7 +101,7 @@ ASSUMPTIONS = [
 
 warnings.simplefilter("ignore")
 
-KINDS = ("extract", "extract_faces", "pstruct", "overlap", "pgrid", "pcoord", "connected")
+KINDS = ("extract", "extract_faces", "pstruct", "overlap", "pgrid", "pcoord", "connected", "dcd")
 
 
 # ----------------------------------------------------------------------------- grids
@@ -238,7 +260,7 @@ def _coplanar_faces(rng, g):
 
 
 def gen_case(rng, tier):
-    kind = rng.choices(KINDS, weights=[34, 12, 20, 20, 6, 5, 3])[0]
+    kind = rng.choices(KINDS, weights=[32, 12, 18, 18, 6, 5, 3, 12])[0]
     if kind == "extract":
         spec = gen_grid(rng, tier)
         g = build_grid(spec)
@@ -283,6 +305,14 @@ def gen_case(rng, tier):
         if rng.random() < 0.03:
             case["faces"] = case["faces"] + [g.num_faces]
         return case
+    if kind == "dcd":
+        nd = rng.choice([1, 2, 2, 3, 3, 3, 4])
+        hi = {1: 40, 2: 20, 3: 9, 4: 4}[nd]
+        fine = [rng.choice([1, 2, rng.randint(1, hi), rng.randint(1, hi), hi]) for _ in range(nd)]
+        tot = int(np.prod(fine))
+        cubes = [n ** k for n in range(1, 8) for k in (2, 3, 4)]
+        return {"kind": kind, "grid": {"type": "none", "dims": fine},
+                "target": rng.choice([0, 1, 2, tot - 1, tot, tot + 5, rng.choice(cubes), rng.randint(1, tot + 2), rng.randint(1, tot + 2), rng.randint(1, 60)])}
     if kind == "pstruct":
         nd = rng.choice([1, 2, 2, 2, 3, 3])
         hi = {1: 14, 2: 12, 3: 6}[nd] + (3 if tier == "thorough" else 0)
@@ -368,6 +398,24 @@ def _coarse_for(case):
     return [int(c) for c in P.determine_coarse_dimensions(case["num_part"], np.array(case["grid"]["dims"]))]
 
 
+def _pcoord_inputs(g, n):
+    """inputs of the box search exactly as partition_coordinates prepares them (map to natural coordinates, node extent,
+    integer extents delta_int); float glue, trusted -- the search itself is the model's"""
+    import porepy as pp
+
+    if g.dim in (1, 2):
+        g = g.copy()
+        cell_centers, *_, nodes = pp.map_geometry.map_grid(g)
+        cc = np.atleast_2d(cell_centers)[: g.dim]
+        nodes = np.atleast_2d(nodes)[: g.dim]
+    else:
+        cc, nodes = g.cell_centers[: g.dim], g.nodes[: g.dim]
+    lo, hi = np.min(nodes, axis=1), np.max(nodes, axis=1)
+    delta = hi - lo
+    delta_int = np.ceil(np.power(n, 1 / g.dim) * delta / np.min(delta)).astype("int")
+    return cc, lo, hi, delta, [int(x) for x in delta_int]
+
+
 def _sorted_cols(faces, signs):
     return [sorted(zip(f, s)) for f, s in zip(faces, signs)]
 
@@ -376,8 +424,19 @@ def impl_run(case):
     from porepy.grids import partition as P
 
     kind = case["kind"]
-    if kind in ("pcoord", "connected"):
+    if kind == "connected":
         return {"skip": True}
+    if kind == "pcoord":
+        g = build_grid(case["grid"])
+        try:
+            return {"part": _ints(P.partition_coordinates(g, case["num"], check_connectivity=False))}
+        except Exception as e:
+            return err_kind(e)
+    if kind == "dcd":
+        try:
+            return {"coarse": _ints(P.determine_coarse_dimensions(max(case["target"], 0), np.array(case["grid"]["dims"])))}
+        except Exception as e:
+            return err_kind(e)
     g = build_grid(case["grid"])
     try:
         if kind == "extract":
@@ -395,7 +454,10 @@ def impl_run(case):
                 p = P.partition_structured(g, coarse_dims=np.array(case["coarse"]))
             else:
                 p = P.partition_structured(g, num_part=case["num_part"])
-            return {"part": _ints(p)}
+            out = {"part": _ints(p)}
+            if "num_part" in case:
+                out["coarse"] = _coarse_for(case)
+            return out
         if kind == "overlap":
             r = P.overlap(g, np.array(case["cells"], dtype=int), case["layers"], case["criterion"])
             return {"cells": _ints(r)}
@@ -410,10 +472,20 @@ def impl_run(case):
 # ----------------------------------------------------------------------------- model
 def model_ops(case):
     kind = case["kind"]
-    if kind in ("pcoord", "connected"):
+    if kind == "connected":
         return []
+    if kind == "pcoord":
+        g = build_grid(case["grid"])
+        cc, lo, hi, delta, delta_int = _pcoord_inputs(g, case["num"])
+        return [{"op": "pcoord", "lo": fracs(lo), "hi": fracs(hi), "num": case["num"], "delta_int": delta_int,
+                 "cc": [fracs(cc[:, i]) for i in range(cc.shape[1])]}]
+    if kind == "dcd":
+        return [{"op": "dcd", "target": max(case["target"], 0), "fine": case["grid"]["dims"]}]
     if kind == "pstruct":
-        return [{"op": "pstruct", "fine": case["grid"]["dims"], "coarse": _coarse_for(case)}]
+        ops = [{"op": "pstruct", "fine": case["grid"]["dims"], "coarse": _coarse_for(case)}]
+        if "num_part" in case:  # the model's own determine_coarse_dimensions must agree with the real one
+            ops.append({"op": "dcd", "target": case["num_part"], "fine": case["grid"]["dims"]})
+        return ops
     g = build_grid(case["grid"])
     t = topo(g)
     if kind == "extract":
@@ -433,15 +505,33 @@ def model_decode(outs, case):
     if not outs:
         return {"skip": True}
     o = outs[0]
+    if case["kind"] == "pstruct" and len(outs) == 2:
+        o = dict(o, coarse=outs[1].get("coarse", outs[1]))
     if case["kind"] == "extract_faces" and isinstance(o, dict) and "cf_faces" in o:
         o = dict(o)
         o["cf"] = [[list(p) for p in col] for col in _sorted_cols(o.pop("cf_faces"), o.pop("cf_signs"))]
     return o
 
 
+PCOORD_SKIPPED = [0, 0]  # [compared, skipped because a centre is within 1e-9 of a box boundary]
+
+
 def compare(impl, model, case):
-    if case["kind"] in ("pcoord", "connected"):
+    if case["kind"] == "connected":
         return None
+    if case["kind"] == "pcoord":
+        # the float code and the exact model may legitimately differ when a cell centre is within rounding distance of a box
+        # boundary; such cases are not compared, unless the boundary is hit exactly and every box edge is binary64-exact
+        margin = Fraction(model["margin"])
+        if margin < Fraction(1, 10**9):
+            g = build_grid(case["grid"])
+            _, lo, hi, delta, _ = _pcoord_inputs(g, case["num"])
+            exact = all(Fraction(float(d)) / c == Fraction(float(d) / c) for d, c in zip(delta, model["coarse"]))
+            if not (margin == 0 and exact):
+                PCOORD_SKIPPED[1] += 1
+                return None
+        PCOORD_SKIPPED[0] += 1
+        return deep_compare(impl, model["res"])
     return deep_compare(impl, model)
 
 
@@ -662,13 +752,9 @@ def _oracle_pstruct(P, g, case):
     else:
         n = case["num_part"]
         coarse = _ints(P.determine_coarse_dimensions(n, np.array(fine)))
-        if len(coarse) != nd or any(c < 1 or c > f for c, f in zip(coarse, fine)):
-            return _fail(f"determine_coarse_dimensions({n}, {fine}) = {coarse} is not within [1, fine]", "coarse-dims-out-of-range")
-        if n <= 1 and coarse != [1] * nd:
-            return _fail(f"determine_coarse_dimensions({n}, {fine}) = {coarse}: target 1 must give one coarse cell", "coarse-dims-limit")
-        r = round(n ** (1.0 / nd))
-        if r ** nd == n and r <= min(fine) and coarse != [r] * nd:
-            return _fail(f"determine_coarse_dimensions({n}, {fine}) = {coarse}: a perfect power within bounds must give {[r] * nd}", "coarse-dims-perfect-power")
+        r = _check_coarse(n, fine, coarse)
+        if r:
+            return r
     try:
         if "coarse" in case:
             p = P.partition_structured(g, coarse_dims=np.array(coarse))
@@ -803,9 +889,32 @@ def _oracle_connected(P, g, case):
     return None
 
 
+def _check_coarse(n, fine, coarse):
+    nd = len(fine)
+    if len(coarse) != nd or any(c < 1 or c > f for c, f in zip(coarse, fine)):
+        return _fail(f"determine_coarse_dimensions({n}, {fine}) = {coarse} is not within [1, fine]", "coarse-dims-out-of-range")
+    if n <= 1 and coarse != [1] * nd:
+        return _fail(f"determine_coarse_dimensions({n}, {fine}) = {coarse}: target 1 must give one coarse cell", "coarse-dims-limit")
+    r = round(n ** (1.0 / nd))
+    if n >= 1 and r ** nd == n and r <= min(fine) and coarse != [r] * nd:
+        return _fail(f"determine_coarse_dimensions({n}, {fine}) = {coarse}: a perfect power within bounds must give {[r] * nd}", "coarse-dims-perfect-power")
+    return None
+
+
+def _oracle_dcd(P, case):
+    fine, n = list(case["grid"]["dims"]), max(case["target"], 0)
+    try:
+        coarse = _ints(P.determine_coarse_dimensions(n, np.array(fine)))
+    except Exception as e:
+        return _fail(f"determine_coarse_dimensions({n}, {fine}) raised {type(e).__name__}: {e}", f"coarse-dims-{type(e).__name__}")
+    return _check_coarse(n, fine, coarse)
+
+
 def oracle(case):
     from porepy.grids import partition as P
 
+    if case["kind"] == "dcd":
+        return _oracle_dcd(P, case)
     g = build_grid(case["grid"])
     return {"extract": _oracle_extract, "extract_faces": _oracle_faces, "pstruct": _oracle_pstruct, "overlap": _oracle_overlap,
             "pgrid": _oracle_pgrid, "pcoord": _oracle_pcoord, "connected": _oracle_connected}[case["kind"]](P, g, case)
@@ -867,6 +976,7 @@ def stats(cases, impl_outs):
             errs[o["err"]] = errs.get(o["err"], 0) + 1
     return {
         "kinds": kinds, "grid_types": gtypes, "errors": errs,
+        "pcoord_compared_vs_skipped_knife_edge": list(PCOORD_SKIPPED),
         "perturbed": sum(1 for c in cases if "jit" in c["grid"]), "affine": sum(1 for c in cases if "aff" in c["grid"]),
         "extract_styles": {s: sum(1 for c in cases if c["kind"] == "extract" and c.get("style") == s)
                            for s in sorted({c.get("style") for c in cases if c["kind"] == "extract"})},
